@@ -24,9 +24,9 @@
 
 package actor
 
-// VerifFaultCounter projects the consecutive fault counter and the time of the
+// VerifFaultState projects the consecutive fault counter and the time of the
 // last recorded fault (unix nanoseconds, 0 = never) of a local PID.
-func VerifFaultCounter(pid *PID) (faults int64, lastFaultAtNano int64) {
+func VerifFaultState(pid *PID) (faults int64, lastFaultAtNano int64) {
 	return pid.consecutiveFaults.Load(), pid.lastFaultAtNano.Load()
 }
 
